@@ -74,6 +74,7 @@ class Ace(AceBase):
         if dstaddr := kwargs.get("dstaddr") or {}:
             self._dstaddr = Address(**dstaddr)
         self.line = line
+        self._init_fields_identity(**kwargs)
 
     # ========================== redefined ===========================
 
@@ -500,6 +501,23 @@ class Ace(AceBase):
         return aces
 
     # =========================== helper =============================
+
+    def _init_fields_identity(self, **kwargs) -> None:
+        """Restore uuid and note of the field objects from exported data (they are rebuilt from line)."""
+        fields = (
+            (self._protocol, kwargs.get("protocol")),
+            (self._srcaddr, kwargs.get("srcaddr")),
+            (self._srcport, kwargs.get("srcport")),
+            (self._dstaddr, kwargs.get("dstaddr")),
+            (self._dstport, kwargs.get("dstport")),
+            (self._option, kwargs.get("option")),
+        )
+        for field_o, data in fields:
+            if isinstance(data, dict):
+                if uuid := data.get("uuid"):
+                    field_o.uuid = uuid
+                if data.get("note") is not None:
+                    field_o.note = data["note"]
 
     @staticmethod
     def _check_parsed_elements(line: str, data: DStr) -> bool:
